@@ -7,7 +7,9 @@ import (
 	"bufio"
 	"fmt"
 	"os"
+	"runtime"
 	"strings"
+	"time"
 
 	"github.com/mutagen-io/mutagen/pkg/daemon"
 	"github.com/mutagen-io/mutagen/pkg/verif"
@@ -118,6 +120,20 @@ func main() {
 			fmt.Fprintf(f, "end %s\n", fields[2])
 			f.Close()
 			reply("journaled")
+		case "gc":
+			// A garbage collection with its finalizers, at a point the
+			// simulator chooses (file descriptors of unreachable os.File
+			// values are closed here).
+			runtime.GC()
+			done := make(chan struct{})
+			runtime.SetFinalizer(new([16]byte), func(*[16]byte) { close(done) })
+			runtime.GC()
+			select {
+			case <-done:
+			case <-time.After(2 * time.Second):
+			}
+			runtime.GC()
+			reply("collected")
 		case "exit":
 			reply("bye")
 			return
